@@ -11,6 +11,7 @@ source on every run, that the refusal / no-op branches of the model are present 
 -/
 import GoUtils.Proofs.Fs
 import GoUtils.Proofs.FsTerm
+import GoUtils.Proofs.FsTerm2
 import GoUtils.Generated.Fs
 import GoUtils.Verdict
 namespace GoUtils.Props.C06
@@ -61,13 +62,45 @@ theorem C06_copy_source_unchanged (fuel : Nat) (t : Tree) (src dest : Path) (sl 
 
 /-- "a call terminates", for Copy with source and destination apart from each other (neither a prefix of
     the other): for EVERY tree, with fuel above the depth of the source subtree — here the total length of
-    the tree's paths + 1 — the model's copy returns an answer. Together with the two overlap theorems
-    below (source = destination: no-op; destination inside the source directory: refused at once) the only
-    case left without a termination theorem is a source that lies below the destination directory. -/
+    the tree's paths + 1 — the model's copy returns an answer. -/
 theorem C06_copy_terminates_apart (t : Tree) (src dest : Path) (sl : Bool)
     (h1 : under src dest = false) (h2 : under dest src = false) :
     (copy (totalLen t + 1) t src dest sl).isSome = true :=
   copy_returns t src dest sl ⟨h1, h2⟩
+
+/-- "a call terminates", Copy in EVERY case — source and destination apart, the source below the
+    destination directory (the copy then reads the very subtree it writes into: it returns because no
+    entry it creates is longer than the entry it comes from), the destination inside the source (refused,
+    or one step for a file), source = destination (no-op; with a trailing separator: the directory is
+    copied under its own name, the child of that name being the destination itself). -/
+theorem C06_copy_always_returns (t : Tree) (src dest : Path) (sl : Bool) :
+    (copy (fuelFor t) t src dest sl).isSome = true :=
+  copy_always_returns t src dest sl
+
+/-- "a call terminates", Move in every case (below itself: refused; towards a place that is not deeper:
+    path lengths do not grow; between unrelated places: below the source the move only removes) -/
+theorem C06_move_always_returns (t : Tree) (src dest : Path) : (move (fuelFor t) t src dest).isSome = true :=
+  move_always_returns t src dest
+
+/-- "a call terminates": every one of the 15 calls of the reference model returns on every tree, and every
+    program runs to its end — the reference model never answers "does not return", so a call of the
+    implementation that does not return (the harness watches for it) can never agree with it. -/
+theorem C06_every_call_returns (t : Tree) (op : Op) : (step t op).isSome = true := step_returns t op
+
+theorem C06_every_program_returns (ops : List Op) (t : Tree) : (run t ops).isSome = true := run_returns ops t
+
+/-- a copy or move towards a place that is not deeper than its source (in particular: the source lies
+    below the destination) never makes a path longer than the longest one before: with any bound `L` on
+    the tree's path lengths and fuel above `L − |src|` it returns a tree with the same bound -/
+theorem C06_copy_below_destination_bounded (fuel : Nat) (t : Tree) (src dest : Path) (sl : Bool) (L : Nat)
+    (hL : ∀ e ∈ t, e.1.length ≤ L) (hlen : dest.length < src.length) (h0 : 0 < fuel) (hf : L < fuel + src.length) :
+    ∃ r t', copy fuel t src dest sl = some (r, t') ∧ ∀ e ∈ t', e.1.length ≤ L :=
+  copy_terminates_shallow fuel t src dest sl L hL hlen h0 hf
+
+theorem C06_move_not_deeper_bounded (fuel : Nat) (t : Tree) (src dest : Path) (L : Nat)
+    (hL : ∀ e ∈ t, e.1.length ≤ L) (hlen : dest.length ≤ src.length) (h0 : 0 < fuel) (hf : L < fuel + src.length) :
+    ∃ r t', move fuel t src dest = some (r, t') ∧ ∀ e ∈ t', e.1.length ≤ L :=
+  move_terminates_shallow fuel t src dest L hL hlen h0 hf
 
 /-- … and while it runs nothing at or below the source is added, altered or removed, even as a list of
     entries (not only through `lookup`) -/
@@ -124,6 +157,10 @@ def sampleTree : Tree := [([1], .dir), ([1, 2], .file 3), ([2], .dir), ([2, 9], 
 def sampleProg : List Op := [.cp [1] [1, 5] false, .cp [1] [3] true, .mv [3] [4], .rm [1], .mkdir [4, 1, 1]]
 
 example : (run sampleTree sampleProg).isSome = true := by decide
+-- the overlap cases really recurse: a source below its destination, and a directory copied under its own name
+example : ((copy (fuelFor sampleTree) sampleTree [1, 2] [1] false).map fun x => (x.1, lookup x.2 [1, 2])) = some (.ok, some (.file 3)) := by decide
+example : ((copy (fuelFor sampleTree) sampleTree [1] [1] true).map fun x => lookup x.2 [1, 1, 2]) = some (some (.file 3)) := by decide
+example : ((move (fuelFor sampleTree) sampleTree [1] [2]).map fun x => (lookup x.2 [2, 2], lookup x.2 [1])) = some (some (.file 3), none) := by decide
 example : ∀ op ∈ sampleProg, ∀ x ∈ op.targets, under x [2, 9] = false ∧ under [2, 9] x = false := by decide
 example : (run sampleTree sampleProg).map (fun t => lookup t [2, 9]) = some (some (.file 7)) := by decide
 
